@@ -28,7 +28,7 @@ COMPONENTS = {"real": ["setigen.voltage.quantization (RealQuantizer, ComplexQuan
 ASSUMPTIONS = ["a 'constant' input is an array of one repeated value (zero variance by definition, whatever its computed std)",
                "|x| kept within 1e-100..1e140 so that sums of squares neither overflow nor underflow",
                "+-1 tolerated iff the reference pre-rounding value is within 1e-9 of a rounding boundary"]
-PROBES = ["refresh_skipped", "refresh_taken_later_call", "zero_variance_input", "custom_std_used",
+PROBES = ["real_dtype_input_to_complex_quantiser", "refresh_skipped", "refresh_taken_later_call", "zero_variance_input", "custom_std_used",
           "ncalc_shorter_than_input", "clipped_values", "two_d_input", "period_nonpositive", "rejected_call"]
 
 KINDS = ["gauss", "gauss", "gauss", "const", "two", "ramp", "huge", "tiny", "len1", "2d", "pedestal"]
@@ -88,6 +88,8 @@ def generate(rng, tier):
             op = {"op": "q", "q": q, "x": gen_input(rng), "custom": cu, "alias": rng.random() < 0.1}
             if rng.random() < 0.5:
                 op["y"] = gen_input(rng)       # imaginary part for complex quantisers
+            elif rng.random() < 0.25:
+                op["real_dtype"] = True
             ops.append(op)
         elif r < 0.76:
             # a call the quantiser must reject: it is not a call of the refresh schedule and leaves the estimates alone
@@ -249,6 +251,12 @@ def _step(qz, objs, op, ctx):
             y = make_input(op["y"]) if "y" in op else make_input(dict(op["x"], seed=op["x"]["seed"] + 1))
             y = _same_shape(x, y)
             z = x + 1j * y
+            if op.get("real_dtype"):
+                # a complex quantiser handed an array of real dtype: its imaginary part is identically zero, which
+                # is a (zero-variance) input like any other and a call of the imaginary schedule like any other
+                y = np.zeros_like(x)
+                z = x.copy()
+                ctx.hit("real_dtype_input_to_complex_quantiser")
             cus = [cu, cu] if not isinstance(cu, list) else cu
             pres = []
             for part, (m, arr, c) in enumerate(zip(S["m"], (x, y), cus)):
